@@ -1046,7 +1046,7 @@ class _Squeeze(Base):
                 return dict(kind='new', arr=r)
             return dict(kind='scalar', val=r)
         ax, qc = p[3]
-        return dict(kind='new', arr=a.add_trivial_leg(ax, 'triv', qc))
+        return dict(kind='new', arr=a.add_trivial_leg(ax, 'triv', qc), share=p[1])  # documented: possibly shallow
 
     def model(self, shs, p):
         a = shs[p[1]]
